@@ -278,4 +278,23 @@ example :
   unfold_xreplace_commute_package _ (by decide) cPSF _ _ _
     (by intro ci h; revert ci; decide +kernel) (by intro ci h; revert ci; decide +kernel)
 
+/-! ### substitutions that identify arguments / pool entries (multiplicity) -/
+
+/-- non-vacuity for substitutions that IDENTIFY two arguments of an instance / two entries of a pool
+(`{m1: x, m2: x}`): the commutation law holds on the regenerated table, and the pool sum keeps both
+entries (multiplicity; `PoolSum.__new__` storing its values unchanged is `C18.new_stores_given_values`). -/
+example :
+    Expr.beq (unfold Variant.current Ampverif.Gen.C14.classTable
+        (xreplace Variant.current (.node cBMS [.sym ws, .sym wm1, .sym wm2] [.none]) [(wm1, .sym wx), (wm2, .sym wx)]))
+      (xreplace Variant.current (unfold Variant.current Ampverif.Gen.C14.classTable
+        (.node cBMS [.sym ws, .sym wm1, .sym wm2] [.none])) [(wm1, .sym wx), (wm2, .sym wx)]) = true := by
+  decide +kernel
+
+example :
+    Expr.beq (xreplace Variant.current
+        (.psum (.node cBMS [.sym ws, .sym ⟨"i", []⟩, .sym wm2] [.none]) [(⟨"i", []⟩, [.sym wm1, .sym wm2])])
+        [(wm1, .sym wx), (wm2, .sym wx)])
+      (.psum (.node cBMS [.sym ws, .sym ⟨"i", []⟩, .sym wx] [.none]) [(⟨"i", []⟩, [.sym wx, .sym wx])]) = true := by
+  decide +kernel
+
 end Ampverif.Props.C14
